@@ -228,6 +228,14 @@ EXPORT char *_stpncpy_s_chk(char *restrict dest, rsize_t dmax,
         overlap_bumper = dest;
 
         while (dmax > 0) {
+            if (unlikely(slen == 0)) {
+                /*
+                 * Copying truncated to slen chars.  Note that the TR says to
+                 * copy slen chars plus the null char.  We null the slack.
+                 */
+                goto eok;
+            }
+
             if (unlikely(src == overlap_bumper)) {
                 handle_error(orig_dest, orig_dmax,
                              "stpncpy_s: "
@@ -235,14 +243,6 @@ EXPORT char *_stpncpy_s_chk(char *restrict dest, rsize_t dmax,
                              ESOVRLP);
                 *errp = RCNEGATE(ESOVRLP);
                 return NULL;
-            }
-
-            if (unlikely(slen == 0)) {
-                /*
-                 * Copying truncated to slen chars.  Note that the TR says to
-                 * copy slen chars plus the null char.  We null the slack.
-                 */
-                goto eok;
             }
 
             *dest = *src;
